@@ -86,3 +86,14 @@ package verifspec
 //@   requires ref(dst) != ref(src)
 //@   loop 1 invariant 1 <= i && (i <= len(fields) || len(fields) == 0) && forall(k, 1, i, dst[fields[k].prop] == old(src[fields[k].prop])) && forall(k, 0, len(fields), src[fields[k].prop] == old(src[fields[k].prop]))
 //@   ensures forall(k, 0, len(fields), dst[fields[k].prop] == old(src[fields[k].prop]))
+// one-directional clauses with an abstracted remainder
+//@ js st.js $ok_tw
+//@ property S01
+//@   param c: chan, v: num
+//@   abstract_rest
+//@   throws_when c.$closed
+//@ js st.js $bad_tw
+//@ property S01
+//@   param c: chan, v: num
+//@   abstract_rest
+//@   throws_when c.$closed
